@@ -460,7 +460,9 @@ func TestC18(t *testing.T) {
 	})
 }
 
-func returnedBefore(retAt time.Duration, returned bool, t time.Duration) bool { return returned && retAt <= t }
+func returnedBefore(retAt time.Duration, returned bool, t time.Duration) bool {
+	return returned && retAt <= t
+}
 
 func anyErrTarget(bs []c18Behaviour) bool {
 	for _, b := range bs {
